@@ -33,6 +33,8 @@ Traces  == Cases[cid].traces           \* sequence of [impl, events]
 Cap     == Cases[cid].cap              \* at most this many events were taken from each back end
 MaxSt   == Cases[cid].bound.max_steps  \* -1: none
 TEnd    == Cases[cid].bound.t_end      \* -1: none
+Mode    == Cases[cid].mode             \* "events": yields are events; "slots": a yield overwrites the
+                                       \* <ret_state>/<ret_time>/<ret_time_id> slots of its component (Fortran)
 Fault   == Cases[cid].fault            \* <<tag, occurrence>> of the call of <func>f(.., k=tag) that raises; <<0, 0>>: none
 
 PhaseRec(name) == Method.phases[CHOOSE k \in DOMAIN Method.phases : Method.phases[k].name = name]
@@ -156,6 +158,10 @@ ExecStatement(c, acc) ==
             IF acc.hit THEN [acc EXCEPT !.closed = TRUE]       \* fenced behind the failed call: never ran
             ELSE LET v == Eval(c.e, acc.st)  t == Eval(c.time, acc.st) IN
                    IF v = U \/ t = U \/ v[1] = "t" THEN Halt(acc, "oof")
+                   ELSE IF acc.mode = "slots"
+                   THEN [acc EXCEPT !.st = [n \in DOMAIN @ \cup {c.slots[1], c.slots[2], c.slots[3]} |->
+                                              IF n = c.slots[1] THEN v ELSE IF n = c.slots[2] THEN t
+                                              ELSE IF n = c.slots[3] THEN <<"s", c.tid>> ELSE @[n]]]
                    ELSE [acc EXCEPT !.evs = Append(@, <<"yield", t, c.tid, c.comp, v>>)]
       [] acc.hit /\ c.op \in {"fail", "raise", "switch", "restart"} -> [acc EXCEPT !.closed = TRUE]
       [] c.op = "fail"    -> Halt(acc, "failed")
@@ -185,7 +191,7 @@ Body(calls, k, acc) ==
 RunBody(ph, st, cc) ==
     LET r == Body(ph.calls, 1, [st |-> st, evs |-> <<>>, stack |-> <<>>, flags |-> <<>>, lastIf |-> <<>>,
                                 out |-> "go", target |-> "", kind |-> "", self |-> ph.name,
-                                cc |-> cc, hit |-> FALSE, closed |-> FALSE, taint |-> {}, staint |-> <<>>,
+                                mode |-> Mode, cc |-> cc, hit |-> FALSE, closed |-> FALSE, taint |-> {}, staint |-> <<>>,
                                 ftaint |-> <<>>, cands |-> {}])
     IN IF r.hit /\ r.out # "oof" THEN [r EXCEPT !.out = "userexc"] ELSE r
 
@@ -212,7 +218,8 @@ StepResult ==
         st2 == Persist(r.st)
         dtv == IF "<dt>" \in DOMAIN r.st THEN r.st["<dt>"] ELSE None
         tv  == IF "<t>" \in DOMAIN r.st THEN r.st["<t>"] ELSE None
-        endev == CASE r.out \in {"go", "switch"} -> <<"done", dtv, tv, phase, nxt, PersSnapshot(st2)>>
+        endev == CASE Mode = "slots" /\ r.out \in {"go", "switch", "failed"} -> <<"slots", nxt, PersSnapshot(st2)>>
+                   [] r.out \in {"go", "switch"} -> <<"done", dtv, tv, phase, nxt, PersSnapshot(st2)>>
                    [] r.out = "failed" -> <<"fail", tv, ph.next, PersSnapshot(st2)>>
                    [] r.out = "raise"  -> <<"raise", r.kind, PersSnapshot(st2)>>
                    [] OTHER -> <<"oof">>
@@ -262,7 +269,7 @@ Step ==
          ELSE /\ store' = r.st
               /\ phase' = r.next
               /\ ccount' = r.cc
-              /\ nsteps' = IF r.out \in {"go", "switch"} THEN nsteps + 1 ELSE nsteps
+              /\ nsteps' = IF r.out \in {"go", "switch"} \/ Mode = "slots" THEN nsteps + 1 ELSE nsteps
               /\ pos' = pos + Len(r.evs)
               /\ status' = IF r.out = "raise" THEN "ended" ELSE "run"
               /\ verdict' = verdict
